@@ -94,8 +94,9 @@ func (b *Batch) Put(key []byte, value []byte) error {
 		b.cachedDataSize += newSize
 	} else {
 		// 如果缓存命中则直接修改缓存
-		logRecord.Key = key
-		logRecord.Value = value
+		// 拷贝 value 而非持有调用方切片, 并恢复记录类型 (该 key 此前可能已在本批次中被删除)
+		logRecord.Type = datafile.LogRecordNormal
+		logRecord.Value = append(logRecord.Value[:0], value...)
 		b.cachedDataSize += newSize - oldSize
 	}
 	return nil
